@@ -38,6 +38,48 @@ def get_pool(ctx):
     return ctx._pool
 
 
+def extra_pool(ctx, tag, make_specs, kw=None):
+    """Property-specific additional traced runs (cached like the shared pool), appended to the pool a check reads."""
+    kw = kw or {}
+    tr = tracer.cached(tag, ctx.seed, ctx.tier, lambda: [(sp, dict(kw)) for sp in make_specs()])
+    bad = [t for t in tr if "tracer_error" in t]
+    if bad:
+        raise RuntimeError("tracer failure: " + bad[0]["tracer_error"])
+    return tr
+
+
+def with_extra(ctx, tag, make_specs, kw=None):
+    """Shared pool + extra runs; installs the union as the pool this ctx sees."""
+    base = get_pool(ctx)
+    extra = extra_pool(ctx, tag, make_specs, kw)
+    ctx._pool = list(base) + list(extra)
+    return ctx._pool
+
+
+def scripted_controller_runs(ctx, tag, n):
+    """Runs in which every scalar improvement value is replaced by a scripted one (oracle scripting): the loop controller and the mesh
+    rule are driven through arbitrary sequences of search/poll outcomes and stall flags.  Only the controller-level checks (C03, C13) read them."""
+    rng = ctx.sub_rng(tag)
+    jobs = []
+    for i in range(n):
+        mode = rng.choice(["det", "det", "decl"])
+        sp = gen.make_spec(rng, D=rng.choice([1, 2, 3]), geom=rng.choice(["box", "tight"]), mode=mode, cons=None, target="quad")
+        sp["options"] = {"n_search": 32, "max_fun_evals": (sp["D"] + 60) if mode == "det" else 110, "noise_final_samples": 0}
+        if rng.random() < 0.3:
+            sp["options"]["accelerate_mesh"] = False
+        if rng.random() < 0.3:
+            sp["options"]["tol_mesh"] = rng.choice([1e-2, 1e-3])
+        w = rng.choice([[3, 2, 3, 3], [6, 1, 2, 1], [1, 1, 6, 4], [2, 4, 4, 1]])
+        jobs.append((sp, {"ei_script": {"seed": rng.randint(0, 10 ** 6), "weights": w}, "want": ("ctl",)}))
+    tr = tracer.cached(tag, ctx.seed, ctx.tier, lambda: jobs)
+    bad = [t for t in tr if "tracer_error" in t]
+    if bad:
+        raise RuntimeError("tracer failure: " + bad[0]["tracer_error"])
+    base = get_pool(ctx)
+    ctx._pool = list(base) + list(tr)
+    return tr
+
+
 def spec_tag(sp):
     return f"D={sp['D']} {sp['geom']} {sp['mode']} cons={sp['cons']} {sp['target']} opt={sp['opt_loc']} opts={sp['options']} seed={sp['seed']}"
 
@@ -117,7 +159,7 @@ def filter_events(ctx, rep, want_clauses=("in_box", "distinct", "fresh", "feasib
 
 
 def replay_filter_run(ctx, rep, case):
-    t = tracer.run_traced(case["spec"])
+    t = tracer.run_traced(case["spec"], **(case.get("kw") or {}))
     ctx._pool = [t]
     filter_events(ctx, rep)
 
@@ -211,11 +253,20 @@ def ctl_replay(ctx, rep, pid):
         t = traces[ti]
         sp = t["spec"]
         tag = spec_tag(sp)
-        case = {"kind": "ctl_run", "spec": sp}
+        case = {"kind": "ctl_run", "spec": sp, "kw": ({"ei_script": t["ei_script"]} if t.get("ei_script") else {})}
         stats["runs"] += 1
+        stats["scripted_runs"] = stats.get("scripted_runs", 0) + bool(t.get("ei_script"))
         states = r["states"]
         n = len(states)
         completed = t["error"] is None
+        # the reserve for the final re-sampling (l.1071-1080) as the model of C03 assumes it: min(nfs, B - func_count)
+        s0 = x["obs"][0]["start"]
+        if s0["unc"] > 0:
+            B0, nfs0 = int(t["hdr"]["opts"]["max_fun_evals"]), int(t["hdr"]["opts"]["noise_final_samples"])
+            want_res = min(nfs0, B0 - x["init"]["fc"])
+            if (int(s0["nfs"]), int(s0["budget"])) != (want_res, B0 - want_res):
+                rep.disagree("C03 reserve: min(noise_final_samples, max_fun_evals - func_count)",
+                             f"model reserve {want_res} (budget {B0}, {x['init']['fc']} calls before the loop, noise_final_samples {nfs0}) but the run uses reserve {s0['nfs']} / loop budget {s0['budget']}; {tag}", case)
         for k, (st, ob, o) in enumerate(zip(states, x["obs"], x["outs"])):
             stats["iterations"] += 1
             last = k == n - 1
@@ -440,8 +491,7 @@ def pipe_replay(ctx, rep, pid):
                     okc = False
                     break
                 if not info["found"]:
-                    if pid == "C01":
-                        rep.disagree("Pipe.step ~ call provenance", f"a point evaluated in phase {s['_site']} is not a row of the model's filtered set; {tag}", case)
+                    rep.disagree("Pipe.step ~ call provenance", f"a point evaluated in phase {s['_site']} is not a row of the model's filtered set; {tag}", case)
                     okc = False
                     break
                 stats["infeasible_candidates_dropped"] += max(0, len(s["U"]) - info["nOut"]) if sp["cons"] else 0
